@@ -573,7 +573,7 @@ func (g *c14Gen) wf(stack string, m *c14Msg, variant int) c14F {
 			n := pick(1, 65530, 20)
 			f.ServerName = g.bytes(n)
 			for i := range f.ServerName {
-				f.ServerName[i] = "abcdefghijklmnopqrstuvwxyz0123456789-."[g.r.IntN(38)]
+				f.ServerName[i] = "abcdefghijklmnopqrstuvwxyz0123456789-.ABCXYZ_"[g.r.IntN(45)]
 			}
 			if f.ServerName[n-1] == '.' {
 				f.ServerName[n-1] = 'x'
@@ -707,6 +707,8 @@ func (g *c14Gen) craftedHellos(c *c14Run) {
 		chCases := map[string][]byte{
 			"canonical-all":           c14Concat(sni(name(0, "a.example")), tca([]byte{0}, c14Concat([]byte{4}, h32), c14Concat([]byte{2}, c14V16([]byte("dn")))), status(1, nil, nil), curves(0, 41), sigs(7, 4), alpn("h2", "x"), c14Ext(66, c14V16([]byte("id")))),
 			"canonical-two-curves":    c14Concat(curves(0, 41, 0, 23), sigs(7, 4, 4, 3)),
+			"canonical-mixed-case":    sni(name(0, "GW-01.Example.COM")),
+			"canonical-upper-case":    c14Concat(sni(name(0, "A.EXAMPLE")), curves(0, 41)),
 			"ignored-unknown-ext":     c14Concat(c14Ext(0xff01, []byte{0}), curves(0, 41)),
 			"ignored-unknown-ext2":    c14Concat(curves(0, 41), c14Ext(21, g.bytes(5))),
 			"ignored-name-type":       sni(name(1, "other"), name(0, "a.example")),
